@@ -14,5 +14,6 @@ INVARIANT IsoInvariant
 INVARIANT ComponentsPartition
 INVARIANT FastEqual
 INVARIANT SinkDirectionality
+INVARIANT LiftTheorem
 INVARIANT MetaFast
 INVARIANT Export
